@@ -14,6 +14,15 @@
    last step is a decode).  The machine carries `cache`, the noise setting the receive filter in
    use was computed for (the current code recomputes the filter in every decode, i.e. the cache is
    always empty); `FilterFresh` demands that every decode uses the filter of the CURRENT setting.
+   The histories also contain the two kinds of call that must not matter (general call discipline):
+     Query     getNumberOfLayers / Nt / Nr / calc_linear_SINRs / calc_SINRs       -> QueryIsPure
+     Rejected  every call the scheme refuses with ValueError (channel of a shape the scheme does not
+               accept, negative noise variance, block length not a multiple of Nt) -> RejectedChangesNothing
+   Both are frame conditions (action properties): nothing the later decodes depend on may change.
+   Blast / MRC interleave them with SetNoiseVar and Decode in all orders; the schemes without receiver
+   state run the canonical history  decode, query, decode, rejected, decode.  Every emitted case lists
+   the frame laws each step has to obey (`laws`): ArgumentsUnchanged, EarlierResultsUnchanged,
+   RejectedChangesNothing, QueryIsPure.
 
    Everything is exact.  Channels are Gaussian-integer matrices drawn by the in-spec LCG from
    a small alphabet (so the run is reproducible from `Seed`), data blocks are drawn from
@@ -48,6 +57,8 @@
                               coherently ( |sum e_kj|^2 instead of sum |e_kj|^2 )
      NvNoneKeepsFilter        (plausible regression) a cached receive filter survives
                               set_noise_var(None)
+     QuerySetsNoiseVar        (plausible regression) a SINR query configures the receiver with its argument
+     RejectedKeepsEffect      (plausible regression) a refused channel update stays installed
    With all flags FALSE every invariant below holds.                                        *)
 EXTENDS Integers, Sequences, FiniteSets, TLC, Emit, CMat, BigNat
 
@@ -63,11 +74,12 @@ CONSTANTS Schemes,   \* subset of {"blast","mrc","mrt","svd","gmd","alamouti"}
           DecQs,     \* DecQs[nt] = sequence of q > 0 offered to set_noise_var for blast/mrc
           HistEvery, \* channels with k % HistEvery = 0 get receiver histories of length HistDeep (others 2)
           HistDeep,
+          QueryQ,    \* the SINR queries inside the histories ask for sigma^2 = 1/QueryQ
           Vanish,    \* sequence of exponents e: noise variances 10^-e along which MMSE -> ZF is followed (rel)
           Dev        \* [name |-> BOOLEAN]
 
-VARIABLES stage, cs, x, tx, rx, q, out, flt, hist, decs, cache
-vars == <<stage, cs, x, tx, rx, q, out, flt, hist, decs, cache>>
+VARIABLES stage, cs, x, tx, rx, q, out, flt, hist, decs, cache, chanOK, dn
+vars == <<stage, cs, x, tx, rx, q, out, flt, hist, decs, cache, chanOK, dn>>
 None == <<>>
 
 (* TLC builds [i \in S |-> e] lazily and re-evaluates e at every application; matrices that are
@@ -165,7 +177,7 @@ PickBig(nr, nt, k, s, tries) ==
 
 ValidFor(sch, H) == CASE sch \in {"svd", "gmd"} /\ Len(H[1]) >= 4 -> TopNonSingular(H)
                       [] sch \in {"blast", "svd", "gmd"} -> GoodMimo(H)
-                      [] sch = "mrt"      -> HasComplex(H)                    \* Pyth has no zero
+                      [] sch = "mrt"      -> HasComplex(H)                    \* hence not null; exact zeros (blocked paths) are allowed
                       [] sch = "mrc"      -> Frob2Int(H) # 0 /\ (Len(H) > 1 => HasComplex(H))
                       [] OTHER            -> Frob2Int(H) # 0 /\ HasComplex(H) /\ H[1][1] # H[1][2]
 
@@ -212,7 +224,8 @@ Rel          == [kind |-> "rel", m |-> None, s2 |-> ROne]
 \* --- MRT: every antenna co-phases the symbol, 1/Nt of the power each
 ISqrt(n)    == CHOOSE r \in 0..n : r * r = n
 AbsPyth(h)  == ISqrt(h[1] * h[1] + h[2] * h[2])
-Phase(h)    == GNorm(h[1], -h[2], AbsPyth(h))                  \* exp(-j arg h) = conj(h) / |h|
+\* exp(-j arg h) = conj(h) / |h|; a zero coefficient has phase 0: its antenna still radiates 1/Nt of the power
+Phase(h)    == IF h[1] = 0 /\ h[2] = 0 THEN GOne ELSE GNorm(h[1], -h[2], AbsPyth(h))
 RECURSIVE SumAbsFrom(_, _)
 SumAbsFrom(hs, i) == IF i > Len(hs) THEN 0 ELSE AbsPyth(hs[i]) + SumAbsFrom(hs, i + 1)
 SumAbs(hs)  == SumAbsFrom(hs, 1)
@@ -315,7 +328,7 @@ AlaFilters(c) == LET f == Frob2Int(c.H)  qs == Qs[2]
 (* ------------------------------ the machine --------------------------------------------- *)
 NoCache == -9
 Init == /\ stage = "idle" /\ cs = None /\ x = None /\ tx = None /\ rx = None /\ q = 0 /\ out = None /\ flt = None
-        /\ hist = <<>> /\ decs = <<>> /\ cache = NoCache
+        /\ hist = <<>> /\ decs = <<>> /\ cache = NoCache /\ chanOK = TRUE /\ dn = 0
 
 SetChannel(sch, nr, nt, k) ==
     /\ stage = "idle"
@@ -324,7 +337,7 @@ SetChannel(sch, nr, nt, k) ==
        IN  /\ ValidFor(sch, H)
            /\ cs' = [sch |-> sch, nr |-> nr, nt |-> nt, k |-> k, H |-> H, form |-> FormFor(sch, nr, nt, k)]
     /\ stage' = "chan"
-    /\ UNCHANGED <<x, tx, rx, q, out, flt, hist, decs, cache>>
+    /\ UNCHANGED <<x, tx, rx, q, out, flt, hist, decs, cache, chanOK, dn>>
 
 Encode(d) ==
     /\ stage = "chan"
@@ -332,15 +345,20 @@ Encode(d) ==
        IN  /\ GoodData(v)
            /\ x' = v
            /\ tx' = EncodeOf(cs, Vec(v))
-    /\ stage' = "enc"
-    /\ UNCHANGED <<cs, rx, q, out, flt, hist, decs, cache>>
+    /\ stage' = "enc" /\ dn' = d
+    /\ UNCHANGED <<cs, rx, q, out, flt, hist, decs, cache, chanOK>>
 
 \* noise settings of the receiver: 0 = zero forcing, q > 0 = MMSE with sigma^2 = 1/q
 DecSeq(c)  == IF c.sch \in {"blast", "mrc"} THEN <<0>> \o DecQs[c.nt] ELSE <<0>>
 \* arguments of set_noise_var: -1 = None, 0 = 0.0, q > 0 = 1/q
 NvArgs(c)  == {-1, 0} \cup {DecQs[c.nt][i] : i \in 1..Len(DecQs[c.nt])}
 NvAll      == {-1, 0} \cup UNION {{DecQs[n][i] : i \in 1..Len(DecQs[n])} : n \in DOMAIN DecQs}
-HistLen(c) == IF c.sch \in {"blast", "mrc"} /\ c.k % HistEvery = 0 THEN HistDeep ELSE 2
+\* step kinds in a history:  -1 / 0 / q>0 set_noise_var,  -2 decode,  -3 query bundle,  -6 rejected bundle
+Canon == <<-2, -3, -2, -6, -2>>                     \* schemes without receiver state: one canonical history
+Stateful(c) == c.sch \in {"blast", "mrc"}
+HistLenOf(c, d) == IF Stateful(c) THEN (IF c.k % HistEvery = 0 /\ d = 1 THEN HistDeep ELSE 2) ELSE Len(Canon)
+HistLen(c) == HistLenOf(c, dn)
+StepOK(a)  == Stateful(cs) \/ a = Canon[Len(hist) + 1]
 OutFor(qq) == LET i == CHOOSE i \in 1..Len(decs) : decs[i].q = qq IN decs[i].out
 
 \* the channel output; what a decode must return for every noise setting is fixed here (a pure function
@@ -352,7 +370,7 @@ Transmit ==
        IN  /\ rx' = r
            /\ decs' = [i \in 1..Len(ds) |-> [q |-> ds[i], out |-> DecodeOf(cs, r, Vec(x), ds[i])]]
     /\ stage' = "rx" /\ hist' = <<>> /\ q' = 0 /\ cache' = NoCache
-    /\ UNCHANGED <<cs, x, tx, out, flt>>
+    /\ UNCHANGED <<cs, x, tx, out, flt, chanOK, dn>>
 
 \* set_noise_var(None | 0.0 | 1/a) on the object that has decoded before (or not)
 SetNoiseVar(a) ==
@@ -364,18 +382,40 @@ SetNoiseVar(a) ==
     /\ cache' = IF a = -1 /\ Dev.NvNoneKeepsFilter THEN cache ELSE NoCache
     /\ hist' = Append(hist, [a |-> a, q |-> q'])
     /\ stage' = "rx"
-    /\ UNCHANGED <<cs, x, tx, rx, out, flt, decs>>
+    /\ UNCHANGED <<cs, x, tx, rx, out, flt, decs, chanOK, dn>>
+
+\* getNumberOfLayers, Nt, Nr, calc_linear_SINRs(1/QueryQ), calc_SINRs(1/QueryQ): answers only
+Query ==
+    /\ stage \in {"rx", "dec"}
+    /\ Len(hist) < HistLen(cs) - 1
+    /\ StepOK(-3)
+    /\ q' = IF Dev.QuerySetsNoiseVar /\ Stateful(cs) THEN DecQs[cs.nt][1] ELSE q
+    /\ cache' = IF Dev.QuerySetsNoiseVar /\ Stateful(cs) THEN NoCache ELSE cache
+    /\ hist' = Append(hist, [a |-> -3, q |-> q'])
+    /\ stage' = "rx"
+    /\ UNCHANGED <<cs, x, tx, rx, out, flt, decs, chanOK, dn>>
+
+\* every call the scheme refuses (ValueError): the object keeps channel, noise setting and filter
+Rejected ==
+    /\ stage \in {"rx", "dec"}
+    /\ Len(hist) < HistLen(cs) - 1
+    /\ StepOK(-6)
+    /\ chanOK' = IF Dev.RejectedKeepsEffect THEN FALSE ELSE chanOK
+    /\ hist' = Append(hist, [a |-> -6, q |-> q])
+    /\ stage' = "rx"
+    /\ UNCHANGED <<cs, x, tx, rx, q, out, flt, decs, cache, dn>>
 
 \* decode(channel output) with the receive filter in use
 Decode ==
     /\ stage \in {"rx", "dec"}
     /\ Len(hist) < HistLen(cs)
+    /\ StepOK(-2)
     /\ LET used == IF cache = NoCache THEN q ELSE cache
-       IN  /\ out' = OutFor(used)
+       IN  /\ out' = IF chanOK THEN OutFor(used) ELSE [kind |-> "raised", v |-> None]
            /\ cache' = used
     /\ hist' = Append(hist, [a |-> -2, q |-> q])
     /\ stage' = "dec"
-    /\ UNCHANGED <<cs, x, tx, rx, q, flt, decs>>
+    /\ UNCHANGED <<cs, x, tx, rx, q, flt, decs, chanOK, dn>>
 
 Filters ==
     /\ stage = "chan"
@@ -384,7 +424,7 @@ Filters ==
                 [] cs.sch = "alamouti" -> AlaFilters(cs)
                 [] OTHER -> BlastFilters(cs)
     /\ stage' = "flt"
-    /\ UNCHANGED <<cs, x, tx, rx, q, out, hist, decs, cache>>
+    /\ UNCHANGED <<cs, x, tx, rx, q, out, hist, decs, cache, chanOK, dn>>
 
 \* encode() of the multi-layer schemes rejects blocks whose length is not a multiple of Nt
 EncodeBadLength ==
@@ -393,13 +433,15 @@ EncodeBadLength ==
     /\ x' = PickData(2 * cs.nt + 1, Start(3 + cs.k), 0)
     /\ out' = [kind |-> "raised", v |-> None]
     /\ stage' = "bad"
-    /\ UNCHANGED <<cs, tx, rx, q, flt, hist, decs, cache>>
+    /\ UNCHANGED <<cs, tx, rx, q, flt, hist, decs, cache, chanOK, dn>>
 
 Next == \/ \E sch \in Schemes, sh \in Shapes, k \in KLo..KHi : SetChannel(sch, sh[1], sh[2], k)
         \/ \E d \in 1..NData : Encode(d)
         \/ Transmit
         \/ \E a \in NvAll : SetNoiseVar(a)
         \/ Decode
+        \/ Query
+        \/ Rejected
         \/ Filters
         \/ EncodeBadLength
 
@@ -407,7 +449,13 @@ Next == \/ \E sch \in Schemes, sh \in Shapes, k \in KLo..KHi : SetChannel(sch, s
 \* decoding the noise-free channel output of the encoded data returns the data exactly
 RoundTrip == (stage = "dec" /\ q = 0) => (out.kind # "raised" /\ out.v = Vec(x))
 \* whatever the receiver was configured with before: a decode uses the filter of the current setting
-FilterFresh == stage = "dec" => (cache = q /\ out = OutFor(q))
+FilterFresh == stage = "dec" => (cache = q /\ (chanOK => out = OutFor(q)))
+\* frame conditions of the calls that must not matter (action properties, checked on every transition)
+Stepped(a) == Len(hist') = Len(hist) + 1 /\ hist'[Len(hist')].a = a
+Frame == q' = q /\ cache' = cache /\ chanOK' = chanOK /\ cs' = cs /\ decs' = decs /\ rx' = rx /\ x' = x
+QueryIsPure == [][Stepped(-3) => Frame]_vars
+RejectedChangesNothing == [][Stepped(-6) => Frame]_vars
+Laws == <<"ArgumentsUnchanged", "EarlierResultsUnchanged", "RejectedChangesNothing", "QueryIsPure">>
 \* transmitter and receiver scales cancel
 ScalesCancel == (stage = "dec" /\ tx.kind = "exact") => RMul(RxScale2(cs), rx.s2) = ROne
 \* average transmitted energy per channel use = mean symbol energy
@@ -455,9 +503,9 @@ BadLengthRaises == stage = "bad" => (out.kind = "raised" /\ Len(x) % cs.nt # 0)
 
 (* ------------------------------ emission ------------------------------------------------ *)
 Emit ==
-    IF stage' = "dec" /\ Len(hist') = HistLen(cs') THEN
+    IF stage' = "dec" /\ Len(hist') = HistLenOf(cs', dn') THEN
         EmitCase([op |-> "link", sch |-> cs'.sch, nr |-> cs'.nr, nt |-> cs'.nt, k |-> cs'.k, form |-> cs'.form,
-                  H |-> cs'.H, x |-> x', layers |-> Layers(cs'), tx |-> tx', rx |-> rx', steps |-> hist', decs |-> decs',
+                  H |-> cs'.H, x |-> x', layers |-> Layers(cs'), tx |-> tx', rx |-> rx', steps |-> hist', decs |-> decs', laws |-> Laws, qq |-> QueryQ,
                   energy |-> RDiv(Energy(Vec(x')), <<Len(x'), 1>>),
                   req |-> IF tx'.kind = "rel" THEN <<"DecodeEqualsData", "EnergyPreserved">> ELSE <<>>])
     ELSE IF stage' = "flt" THEN
